@@ -370,8 +370,8 @@ pub fn context_rule_broken(cx: Cx, g: &G, size: u64, sat: Option<(u64, u64, u64)
 // ------------------------------------------------------------------ generator
 pub struct Gen<'a> { pub rng: Rng, pub keys: &'a KeyTable, next_key: usize, next_hash: u64, variant: u64, sys: bool }
 
-pub const RECIPES: [&str; 24] = ["sane", "dupkey", "mixed", "malleable", "sigless", "rawpkh", "multi-flavour",
-    "presegwit-ifs", "keykind", "thresh-range", "lock-range", "deep", "near-size", "near-ops", "near-wit", "near-stack",
+pub const RECIPES: [&str; 28] = ["sane", "dupkey", "mixed", "malleable", "sigless", "rawpkh", "multi-flavour",
+    "presegwit-ifs", "keykind", "thresh-range", "lock-range", "deep-n", "deep-j", "deep-l", "deep-u", "deep-tv", "near-size", "near-ops", "near-wit", "near-stack",
     "multipath", "nonB", "unsat", "illtyped", "random", "legacy-size-edge", "bare-shape", "timelock-boundary"];
 
 impl<'a> Gen<'a> {
@@ -605,18 +605,29 @@ impl<'a> Gen<'a> {
                 let kind = if r == "lock-range" { K::After } else { K::Older };
                 G::bin(K::AndV, G::pk(k).wrap("v"), G::num(kind, v))
             }
-            "deep" => {
-                let k = self.fresh(cx);
-                let n = *self.pick_sys(&[10u64, 100, 399, 400, 401, 402, 403]) as usize;
-                if self.rng.chance(1, 2) {
-                    // n ZeroNotEqual wrappers over c:pk_k : height n + 1
-                    G::pk(k).wrap(&"n".repeat(n))
-                } else {
-                    // nested and_v(v:pk, ...) : one level per and_v
-                    let mut g = G::pk(k.clone());
-                    for _ in 0..(n / 2).min(190) { g = G::bin(K::AndV, G::num(K::Older, 1).wrap("v"), g); }
-                    g
-                }
+            "deep-n" | "deep-j" | "deep-l" | "deep-u" | "deep-tv" => {
+                // A chain of one stackable wrapper kind (n:, j:, l:, u:, or the pair t:v:) around / inside a core
+                // that uses one of the other wrappers (v:, a:, d:, s:, c:), with the total nesting depth
+                // exactly 401, 402 or 403 (the library limit is 402), or a small depth for the limit rows.
+                let filler = &r[5..];
+                let target = *self.pick_sys(&[402u64, 403, 401, 7]);
+                let core = self.choose(5);
+                let (k1, k2) = (self.fresh(cx), self.fresh(cx));
+                let build = |count: usize| -> G {
+                    let base = match core { 3 => G::num(K::Older, 1).wrap("dv"), _ => G::pk(k1.clone()) };
+                    let mut x = base;
+                    for _ in 0..count { x = x.wrap(filler); }
+                    match core {
+                        1 => G::bin(K::AndV, x.wrap("v"), G::pk(k2.clone())),
+                        2 => G::bin(K::AndB, G::pk(k2.clone()), x.wrap("a")),
+                        4 if filler == "n" || filler == "j" || filler == "tv" => G::bin(K::AndB, G::pk(k2.clone()), x.wrap("s")),
+                        _ => x,
+                    }
+                };
+                let (h0, h1) = (build(0).height(), build(1).height());
+                let step = (h1 - h0).max(1);
+                let count = if target > h0 { ((target - h0) / step) as usize } else { 0 };
+                build(count)
             }
             "near-size" => {
                 // and_v chain of v:pk / hashes up to a target size around the context's limits
